@@ -20,7 +20,9 @@ func (c *connLimiter) update(maxConn int32) {
 
 func (c *connLimiter) take() bool {
 	x := atomic.AddInt32(&c.tmp, 1)
-	if x <= atomic.LoadInt32(&c.lim) {
+	// lim <= 0 means no limit. The connection is counted all the same,
+	// so that a limit set later takes the open connections into account.
+	if lim := atomic.LoadInt32(&c.lim); lim <= 0 || x <= lim {
 		atomic.AddInt32(&c.now, 1)
 		return true
 	}
